@@ -24,10 +24,21 @@ Conforms(exp, got) ==
        /\ exp.kind = "version" => got.vtext = "Version: VER-" \o exp.vtag
 
 TInit == /\ l = 1 /\ bad = 0 /\ def = DefSeq[1] /\ env = [x \in EnvVars(DefSeq[1]) |-> "UNSET"] /\ line = <<>> /\ st = InitSt(DefSeq[1])
+\* a completion request recorded after the line: the candidates must lie between the bounds (C14)
+CompConforms(s, r) ==
+  LET cands == {r.cands[i] : i \in DOMAIN r.cands} IN
+  ~Viable(s) \/ (r.p.k = "short" /\ Foreign(s, r.p.s))
+  \/ (r.class = "completion" /\ MustOffer(s, r.p) \subseteq cands /\ cands \subseteq MayOffer(s, r.p))
 TNext == /\ l <= Len(Rec)
          /\ LET r == Rec[l]  d == DefById(r.def)  s == Run(InitSt(d), r.line)  o == Outcome(s, r.env) IN
             /\ def' = d /\ env' = r.env /\ line' = r.line /\ st' = s
-            /\ IF s.outside \/ Conforms(o, r.got) THEN bad' = bad
+            /\ IF r.kind = "complete"
+               THEN IF CompConforms(s, r) THEN bad' = bad
+                    ELSE /\ PrintT(<<"REJECT", l, ToJson([must |-> MustOffer(s, r.p), may |-> MayOffer(s, r.p),
+                                                           acmds |-> LET t == Cur(s).lvl.tail IN
+                                                                     IF t.kind = "cmd" THEN [k \in DOMAIN t.cmds |-> [n |-> t.cmds[k].names[1], w |-> CmdWords(t.cmds[k])]]
+                                                                     ELSE <<>>])>>) /\ bad' = bad + 1
+               ELSE IF s.outside \/ Conforms(o, r.got) THEN bad' = bad
                ELSE /\ PrintT(<<"REJECT", l, ToJson(o)>>) /\ bad' = bad + 1
          /\ l' = l + 1
 TSpec == TInit /\ [][TNext]_tvars
